@@ -156,7 +156,10 @@ def check_case(case):
             res.v(("C13.missing-key-wrong-exception", kind, case["key"], type(e).__name__), str(e))
         res.nontrivial = 1
     elif fam == "wrongtype":
-        path = write_toml(section, P, L)
+        path = write_toml(section, P, L, inline=case.get("inline", False))
+        if case.get("raw"):   # a TOML literal that toml.dumps cannot be asked for (date-time, inline table)
+            txt = open(path).read().replace('"@RAW@"', case["raw"])
+            open(path, "w").write(txt)
         try:
             KINDS[kind].from_file("X", fname=path)
             res.v(("C13.wrong-type-accepted", kind, case["key"], case["wt"]), "P=%r" % (P,))
@@ -235,6 +238,14 @@ def gen_cases(tier):
                         P = dict(base)
                         P[k] = val
                         yield dict(fam="wrongtype", kind=kind, P=P, L=None, key=k, wt=wt)
+                for wt, raw in (("datetime", "1979-05-27T07:32:00Z"), ("date", "1979-05-27"), ("inline-table", "{ a = 1 }"), ("empty-inline-table", "{}"), ("empty-array", "[]")):
+                    if wt.endswith("inline-table") and dict in ok:
+                        continue
+                    if wt == "empty-array" and list in ok:
+                        continue
+                    P = dict(base)
+                    P[k] = "@RAW@"
+                    yield dict(fam="wrongtype", kind=kind, P=P, L=None, key=k, wt=wt, raw=raw)
     yield from gen_seq(tier)
 
 
